@@ -226,7 +226,19 @@ func cmdCheck(args []string) int {
 	return finishCheck(e, out, *tier, seed, *verbose, !*noEvidence, time.Since(t0).Seconds())
 }
 
-func finishCheck(e *Engine, out *CheckOutcome, tier string, seed int, verbose bool, writeEvidence bool, wall float64) int {
+type Verdict struct {
+	NProve, NDischarged int
+	Violations          []*OblResult
+	KnownHits           []string
+	UndecidedNew        []string
+	Deferred            []string
+	Missing             []string
+	EngineErr           bool
+}
+
+// judge applies the ledger and the known-findings file to the raw solver results.
+func judge(out *CheckOutcome, tier string, verbose bool) *Verdict {
+	v := &Verdict{}
 	prop := out.Prop
 	known := loadKnownFindings(filepath.Join(verifDir(), "KNOWN_FINDINGS.txt"))
 	ledger := loadLedger(filepath.Join(verifDir(), "obligations.lock"))
@@ -253,14 +265,9 @@ func finishCheck(e *Engine, out *CheckOutcome, tier string, seed int, verbose bo
 			}
 		}
 	}
-	var deferred []string
 	sort.SliceStable(out.Results, func(i, j int) bool { return out.Results[i].Name < out.Results[j].Name })
-	nProve, nDischarged := 0, 0
-	var violations []*OblResult
-	var knownHits []string
-	var undecidedNew []string
 	seen := map[string]bool{}
-	engineErr := len(out.Errors) > 0
+	v.EngineErr = len(out.Errors) > 0
 	for _, r := range out.Results {
 		seen[baseName(r.Name)] = true
 		if verbose {
@@ -270,56 +277,65 @@ func finishCheck(e *Engine, out *CheckOutcome, tier string, seed int, verbose bo
 			if r.Status == "cover-failed" {
 				if strings.HasSuffix(r.Name, "requires-sat") {
 					out.Errors = append(out.Errors, "vacuous precondition: "+r.Name)
-					engineErr = true
+					v.EngineErr = true
 				} else {
-					violations = append(violations, r)
+					v.Violations = append(v.Violations, r)
 				}
 			}
 			continue
 		}
-		nProve++
+		v.NProve++
 		switch r.Status {
 		case "discharged":
-			nDischarged++
-		case "refuted", "undecided":
+			v.NDischarged++
+		case "refuted", "undecided", "contradiction":
 			if k := isKnown(r.Name); k != nil {
 				line := fmt.Sprintf("KNOWN-FINDING: property=%s %s", prop, k.Text)
 				dup := false
-				for _, l := range knownHits {
+				for _, l := range v.KnownHits {
 					if l == line {
 						dup = true
 					}
 				}
 				if !dup {
-					knownHits = append(knownHits, line)
+					v.KnownHits = append(v.KnownHits, line)
 				}
 				continue
 			}
 			if r.Status == "undecided" && haveLedger && !expected[baseName(r.Name)] {
-				undecidedNew = append(undecidedNew, r.Name)
+				v.UndecidedNew = append(v.UndecidedNew, r.Name)
 				continue
 			}
 			if r.Status == "undecided" && tier == "quick" && thoroughOnly[baseName(r.Name)] {
 				// slow obligation: proved only by the thorough tier; the quick tier searched for
 				// a refutation within its budget and found none
-				deferred = append(deferred, r.Name)
-				nProve--
+				v.Deferred = append(v.Deferred, r.Name)
+				v.NProve--
 				continue
 			}
-			violations = append(violations, r)
+			v.Violations = append(v.Violations, r)
 		}
 	}
-	var missing []string
 	if haveLedger {
 		for n := range expected {
 			if !seen[n] {
-				missing = append(missing, n)
+				v.Missing = append(v.Missing, n)
 			}
 		}
-		sort.Strings(missing)
+		sort.Strings(v.Missing)
 	}
+	return v
+}
+
+func finishCheck(e *Engine, out *CheckOutcome, tier string, seed int, verbose bool, writeEvidence bool, wall float64) int {
+	prop := out.Prop
+	vd := judge(out, tier, verbose)
+	nProve, nDischarged := vd.NProve, vd.NDischarged
+	violations, knownHits, undecidedNew, deferred, missing := vd.Violations, vd.KnownHits, vd.UndecidedNew, vd.Deferred, vd.Missing
+	engineErr := vd.EngineErr
 	// replay refutations
 	replayDir := filepath.Join(verifDir(), "replays", prop)
+	os.RemoveAll(replayDir)
 	var vioLines []string
 	for _, v := range violations {
 		path, confirmed := writeReplay(e, replayDir, prop, v)
